@@ -18,6 +18,7 @@ grammar: `*`, plain decimal 0..255 without leading zero, `x-y` with plain decima
 `GlobGrammar`.  Model: Model/Glob.lean, Model/Nmap.lean.
 -/
 import NetaddrVerif.Lemmas.C17LBlock
+import NetaddrVerif.Lemmas.C17LTile
 import NetaddrVerif.Lemmas.C17LNmap
 namespace NV.C17
 open NV NV.Glob
@@ -157,22 +158,11 @@ theorem v6_rejected (s e : Addr) (n : Net) (hs : s.ver ≠ 4) (he : e.ver ≠ 4)
     iprangeToGlobs s e = .error .addrConversion ∧ cidrToGlob n = .error .addrConversion := by
   simp [iprangeToGlobs, cidrToGlob, hs, he, hn]
 
-/-- consecutive closed intervals, ascending, that cover `[lo, hi]` exactly -/
-def Tiles : List (Nat × Nat) → Nat → Nat → Prop
-  | [], lo, hi => lo = hi + 1
-  | (a, b) :: r, lo, hi => a = lo ∧ a ≤ b ∧ b ≤ hi ∧ Tiles r (b + 1) hi
-
 /-- globs `gs` are valid and denote the intervals `ivs`, one by one -/
 def GlobsDenote : List (List Char) → List (Nat × Nat) → Prop
   | [], [] => True
   | g :: gs, iv :: ivs => (validGlob g = true ∧ globToIptuple g = .ok iv) ∧ GlobsDenote gs ivs
   | _, _ => False
-
-/-- HYPOTHESIS of the fallback path = what property C05 states about `iprange_to_cidrs` on two
-    IPv4 addresses: the returned blocks are IPv4 blocks that tile `[lo, hi]` in ascending order -/
-def CidrsTile (lo hi : Nat) : Prop :=
-  (∀ b ∈ iprangeToCidrs 32 ⟨lo, 32⟩ ⟨hi, 32⟩, b.val < 2 ^ 32 ∧ b.plen ≤ 32) ∧
-  Tiles ((iprangeToCidrs 32 ⟨lo, 32⟩ ⟨hi, 32⟩).map (fun b => (b.first 32, b.last 32))) lo hi
 
 theorem blocks_globs : ∀ (bs : List Pfx), (∀ b ∈ bs, b.val < 2 ^ 32 ∧ b.plen ≤ 32) →
     ∃ gs, bs.mapM (fun c => iprangeToGlob (c.first 32) (c.last 32)) = .ok gs ∧
@@ -191,17 +181,10 @@ theorem blocks_globs : ∀ (bs : List Pfx), (∀ b ∈ bs, b.val < 2 ^ 32 ∧ b.
     simp only [Pfx.first, Pfx.last] at h1
     rw [h1]
 
-/-- FULL STATEMENT (range_to_globs_tiles): for all IPv4 `lo ≤ hi`, `iprange_to_globs(lo, hi)`
-    returns valid globs whose denotations tile `[lo, hi]` exactly, in ascending order.
-
-    Proved here: the single-glob path unconditionally (`single_glob_exact`, `single_when_shaped`);
-    the per-CIDR fallback path relative to the hypothesis `CidrsTile lo hi`, i.e. relative to
-    property C05's theorem about `iprange_to_cidrs` (exact ascending tiling by IPv4 blocks), which
-    is proved for the same `Model/Cidr.lean` definitions in the C05 check, not in this file.  What
-    is proved unconditionally about the fallback: each returned string is `_iprange_to_glob` of one
-    block and is a valid glob denoting exactly that block (`blocks_globs`, `cidr_block_glob`). -/
-theorem range_to_globs_tiles_partial (lo hi : Nat) (hle : lo ≤ hi) (hhi : hi < 2 ^ 32)
-    (hC05 : (∀ g, singleGlob lo hi ≠ .ok g) → CidrsTile lo hi) :
+/-- the tiling statement relative to a tiling of `[lo, hi]` by `iprange_to_cidrs` (needed only when
+    the single-glob attempt fails) -/
+theorem range_to_globs_tiles_of_tile (lo hi : Nat) (hle : lo ≤ hi) (hhi : hi < 2 ^ 32)
+    (hT : (∀ g, singleGlob lo hi ≠ .ok g) → CidrsTile lo hi) :
     ∃ gs ivs, iprangeToGlobs ⟨4, lo⟩ ⟨4, hi⟩ = .ok gs ∧ GlobsDenote gs ivs ∧ Tiles ivs lo hi := by
   cases hsg : singleGlob lo hi with
   | ok g =>
@@ -210,9 +193,28 @@ theorem range_to_globs_tiles_partial (lo hi : Nat) (hle : lo ≤ hi) (hhi : hi <
   | error e =>
     have he := single_glob_error lo hi e hsg
     subst he
-    obtain ⟨hb, ht⟩ := hC05 (fun g hg => by rw [hsg] at hg; exact absurd hg (by simp))
+    obtain ⟨hb, ht⟩ := hT (fun g hg => by rw [hsg] at hg; exact absurd hg (by simp))
     obtain ⟨gs, h1, h2⟩ := blocks_globs _ hb
     exact ⟨gs, _, by simp [iprangeToGlobs, hsg, h1], h2, ht⟩
+
+/-- FULL STATEMENT (range_to_globs_tiles): for all IPv4 `lo ≤ hi`, `iprange_to_globs(lo, hi)`
+    returns valid globs whose denotations tile `[lo, hi]` exactly, in ascending order
+    (`∃ gs ivs, iprangeToGlobs ⟨4, lo⟩ ⟨4, hi⟩ = .ok gs ∧ GlobsDenote gs ivs ∧ Tiles ivs lo hi`).
+
+    Proved here with ONE hypothesis, `C05RangeOK lo hi`, which is literally the conclusion of
+    property C05's theorem `NV.C05.iprange_to_cidrs_addr 32 lo hi hle hhi : RangeOK 32
+    (iprangeToCidrs 32 ⟨lo, 32⟩ ⟨hi, 32⟩) lo hi` (fields `canon`, `den`, `wf`, with
+    `toBlk 32 b = ⟨b.val, 32 - b.plen⟩`) about the same `Model/Cidr.lean` definition; that theorem is
+    proved in the C05 check, which is built separately from this file.  With both in one tree the
+    full statement is `range_to_globs_tiles_partial lo hi hle hhi ⟨h.canon, h.den, h.wf⟩`.
+    Everything else is unconditional: the single-glob path (`single_glob_exact`,
+    `single_when_shaped`), the fact that every string the fallback emits is a valid glob denoting
+    exactly its block (`cidr_block_glob`, `blocks_globs`), and the step from C05's canonical-list
+    form to consecutive tiles (`cidrsTile_of_c05`). -/
+theorem range_to_globs_tiles_partial (lo hi : Nat) (hle : lo ≤ hi) (hhi : hi < 2 ^ 32)
+    (hC05 : C05RangeOK lo hi) :
+    ∃ gs ivs, iprangeToGlobs ⟨4, lo⟩ ⟨4, hi⟩ = .ok gs ∧ GlobsDenote gs ivs ∧ Tiles ivs lo hi :=
+  range_to_globs_tiles_of_tile lo hi hle hhi (fun _ => cidrsTile_of_c05 lo hi hle hhi hC05)
 
 /-- every CIDR block converts, through the inner function alone, to a valid glob denoting it
     (this is what the fallback path emits per block) -/
